@@ -1080,6 +1080,14 @@ pub fn suite_cfg(t: &mut Tracer, thorough: bool, _seed: u64) {
         put(&mut m, "alive_after_rebind", json!(alive));
         emit(t, "migration", m, false);
     }
+    // -- the configured resolver is honoured in full
+    {
+        let mut m = Map::new();
+        for (k, v) in rt.block_on(crate::e2e::measure_resolver()) {
+            put(&mut m, &k, v);
+        }
+        emit(t, "resolver", m, false);
+    }
     // -- reload_config: new connections see the new certificate, established ones are undisturbed
     {
         let mut m = Map::new();
